@@ -119,6 +119,21 @@ func Generate(seed uint64, id, family string) *sdl.Program {
 				i.Prefilled = true
 			}
 		}
+		// a definition registered programmatically while the container refreshes, and a lazy
+		// consumer that a lookup creates after Run: it must find the late definition
+		if r.p(0.12) && len(p.Duplicates()) == 0 {
+			q := p.NIfaces
+			p.NIfaces++
+			n := len(p.Instances)
+			reg := &sdl.Type{Name: id + "TM", Ifaces: []int{q}, Init: true}
+			lt := &sdl.Type{Name: id + "TL", Ifaces: []int{q}, Lazy: true}
+			z := &sdl.Type{Name: id + "TZ", Lazy: true, Points: []*sdl.Point{{Field: "F0", Kind: sdl.KIfaces, Iface: q, Sel: sdl.SelType, Optional: r.p(0.5)}}}
+			p.Types = append(p.Types, reg, lt, z)
+			p.Instances = append(p.Instances,
+				&sdl.Instance{ID: fmt.Sprintf("c%d", n), Type: reg.Name},
+				&sdl.Instance{ID: fmt.Sprintf("c%d", n+1), Type: lt.Name, Alias: "late", Contributed: true, ContribBy: fmt.Sprintf("c%d", n)},
+				&sdl.Instance{ID: fmt.Sprintf("c%d", n+2), Type: z.Name})
+		}
 		return p
 	case FamLarge:
 		k := wireKnobs(r)
